@@ -66,7 +66,8 @@ FAMILY_OF = {"C06": "overdraft/", "C13": "ik/", "C14": "ref/", "C15": "revert/",
 def build_conc(tier, seed, prop):
     """Targeted pipeline of one property: only its LedgerPG cfgs and its scenario families."""
     cfg = TIERS[tier]
-    my_cfgs = {n: PG_CFGS[n] for n in PG_BY_PROP[prop]}
+    # the cache entry is per scenario family: it carries the design cfgs of every property using that family
+    my_cfgs = {n: PG_CFGS[n] for p, fam in sorted(FAMILY_OF.items()) if fam == FAMILY_OF[prop] for n in PG_BY_PROP[p]}
 
     def build(d):
         exe = vlib.go_build("vh-ledger")
